@@ -83,7 +83,7 @@ fn judge_tree(t: &LTree, g: &AG, d: &Dump, m: &Map, input: &str, toks: &[(usize,
     errs
 }
 
-pub fn run_variant(g: &AG, spec: &SetSpec, wd: &Workdir, rep: &mut Rep, rng: &mut Rng, maxlen: usize, fixed: Option<(Vec<usize>, String, Vec<(usize, usize)>)>, family: u8) {
+pub fn run_variant(g: &AG, spec: &SetSpec, wd: &Workdir, rep: &mut Rep, rng: &mut Rng, maxlen: usize, fixed: Option<(Vec<usize>, String, Vec<(usize, usize)>)>, family: u8, history: Option<Vec<String>>) {
     // family > 0: the grammar gets a user Layout rule (whitespace / comments) and inputs carry such layout
     let text = if family > 0 { crate::c14::grammar_text(g, family) } else { g.text() };
     let agj = g.to_json();
@@ -150,7 +150,8 @@ pub fn run_variant(g: &AG, spec: &SetSpec, wd: &Workdir, rep: &mut Rep, rng: &mu
     }
     let mut ok3 = false;
     let mut hangs = 0;
-    for (w, input, toks) in &inputs {
+    let mut fresh: Vec<Option<Result<String, ()>>> = vec![None; inputs.len()];
+    for (ix, (w, input, toks)) in inputs.iter().enumerate() {
         let case = |extra: Value| json!({"grammar": text, "ag": agj, "settings": spec.to_json(), "family": family, "input": input, "tokens": w, "spans": toks.iter().map(|t| vec![t.1, t.2]).collect::<Vec<_>>(), "extra": extra});
         let sig = |k: &str| format!("{}:{}:{}:{}", k, fnv(&text), fnv(&spec.to_json().to_string()), fnv(input));
         crate::rep::watchdog::set(|| case(json!(null)).to_string());
@@ -173,6 +174,7 @@ pub fn run_variant(g: &AG, spec: &SetSpec, wd: &Workdir, rep: &mut Rep, rng: &mu
             rep.violation("C02", &sig("panic"), "LR parser panicked", case(json!(null)));
             continue;
         };
+        fresh[ix] = Some(off.as_ref().map(|t| dynp::shown(t)).map_err(|_| ()));
         if let Ok(t) = &off {
             rep.count("ok_full", 1);
             if toks.len() >= 3 {
@@ -203,6 +205,70 @@ pub fn run_variant(g: &AG, spec: &SetSpec, wd: &Workdir, rep: &mut Rep, rng: &mu
             _ => {}
         }
     }
+    // One parser object over a whole history of inputs (accepted and rejected ones interleaved): each Ok tree must
+    // still be a derivation of *its* input.
+    if hangs == 0 {
+        let hist: Vec<(&str, Option<usize>)> = match &history {
+            Some(h) => {
+                let mut v: Vec<(&str, Option<usize>)> = h.iter().map(|s| (s.as_str(), None)).collect();
+                if let Some(l) = v.last_mut() {
+                    l.1 = Some(0);
+                }
+                v
+            }
+            None => {
+                let mut order: Vec<usize> = (0..inputs.len()).collect();
+                for i in (1..order.len()).rev() {
+                    order.swap(i, rng.below(i + 1));
+                }
+                order.truncate(60);
+                order.into_iter().map(|i| (inputs[i].1.as_str(), Some(i))).collect()
+            }
+        };
+        let mut done: Vec<&str> = vec![];
+        let mut after_err = false;
+        let r = guarded(|| {
+            dy_off.lr_session(|parse| {
+                for (input, ix) in &hist {
+                    dynp::set_step_limit(20_000 * (input.len() as u64 + 1));
+                    let r = parse(input);
+                    done.push(input);
+                    match (&r, ix) {
+                        (Ok(t), Some(ix)) => {
+                            let (w, _, toks) = &inputs[*ix];
+                            rep.count("reuse_ok", 1);
+                            if after_err {
+                                rep.count("reuse_ok_after_rejected_input", 1);
+                            }
+                            let mut errs = judge_tree(t, g, &d, &m, input, toks, false);
+                            if errs.is_empty() {
+                                if let Some(Ok(f)) = &fresh[*ix] {
+                                    if *f != dynp::shown(t) {
+                                        errs.push("tree differs from the one a fresh parser object builds for the same input".into());
+                                    }
+                                }
+                            }
+                            if !errs.is_empty() {
+                                let case = json!({"grammar": text, "ag": agj, "settings": spec.to_json(), "family": family, "input": input, "tokens": w, "spans": toks.iter().map(|t| vec![t.1, t.2]).collect::<Vec<_>>(), "history": done, "extra": {"tree": dynp::shown(t)}});
+                                let sig = format!("reuse-tree:{}:{}:{}", fnv(&text), fnv(&spec.to_json().to_string()), fnv(&done.join("\u{1}")));
+                                rep.violation("C02", &sig, &format!("Ok tree of a reused parser object (input {} of its history) is not a derivation of the input: {}", done.len(), errs.join("; ")), case);
+                            }
+                        }
+                        (Err(_), _) => after_err = true,
+                        _ => {}
+                    }
+                }
+            })
+        });
+        match r {
+            Ok(()) => {}
+            Err(None) => rep.count("step_budget_exceeded_not_judged", 1),
+            Err(Some(msg)) => {
+                let case = json!({"grammar": text, "ag": agj, "settings": spec.to_json(), "family": family, "history": done, "extra": {"panic": msg}});
+                rep.violation("C02", &format!("reuse-panic:{}:{}", fnv(&text), fnv(&spec.to_json().to_string())), "LR parser panicked on a reused parser object", case);
+            }
+        }
+    }
     if resolved && ok3 {
         rep.distinct("nontrivial", fnv(&format!("{}|{}", text, spec.to_json())));
     }
@@ -228,7 +294,8 @@ pub fn main(a: &Args) {
                 case["spans"].as_array().unwrap().iter().map(|x| (x[0].as_u64().unwrap() as usize, x[1].as_u64().unwrap() as usize)).collect(),
             )
         });
-        run_variant(&g, &spec, &wd, &mut rep, &mut rng, 5, fixed, case["family"].as_u64().unwrap_or(0) as u8);
+        let history = case["history"].as_array().map(|h| h.iter().map(|x| x.as_str().unwrap().to_string()).collect());
+        run_variant(&g, &spec, &wd, &mut rep, &mut rng, 5, fixed, case["family"].as_u64().unwrap_or(0) as u8, history);
         rep.finish();
         return;
     }
@@ -259,7 +326,7 @@ pub fn main(a: &Args) {
             if family > 0 {
                 rep.count("variants_with_layout_rule", 1);
             }
-            run_variant(&ann, &spec, &wd, &mut rep, &mut rng, maxlen, None, family);
+            run_variant(&ann, &spec, &wd, &mut rep, &mut rng, maxlen, None, family, None);
         }
     }
     rep.finish();
